@@ -99,6 +99,68 @@ def gen(ctx):
     return specs
 
 
+def gen_env(ctx):
+    """C06 through the builder: what the child gets as argv / environment / cwd when the request is made with Exec calls"""
+    rng = common.SplitMix64(ctx.seed ^ 0xc06b)
+    specs = []
+    def edits(name):
+        return [f"env:{hx(name)}:{hx(b'one')}", f"ext:{hx(name)}:{hx(b'two')}", f"rm:{hx(name)}", "clear",
+                f"ext:{hx(name)}:{hx(b'a')},{hx(name)}:{hx(b'b')}", f"env:{hx(name)}:{hx(bytes([0xff, 0xfe, 0x80]))}"]
+    for name in (b"A", b"N", bytes([0xc3, 0x28, 0xff])):   # inherited, fresh, not UTF-8
+        e = edits(name)
+        for a in e:
+            for b in e:
+                specs.append(f"{CMDS[0]} {a} {b} term:popen")
+                if ctx.tier != "quick" or rng.below(3) == 0:
+                    for c in e:
+                        specs.append(f"{CMDS[0]} {a} {b} {c} term:join")
+    for _ in range(60 if ctx.tier == "quick" else 1500):
+        ops = []
+        for _ in range(1 + rng.below(8)):
+            r = rng.below(100)
+            nm = NAMES[rng.below(len(NAMES))]
+            val = VALS[rng.below(len(VALS))] if rng.below(3) else bytes(rng.below(255) + 1 for _ in range(rng.below(9)))
+            if r < 30:
+                ops.append(f"env:{hx(nm)}:{hx(val)}")
+            elif r < 60:
+                ops.append("ext:" + ",".join(f"{hx(NAMES[rng.below(len(NAMES))])}:{hx(VALS[rng.below(len(VALS))])}"
+                                             for _ in range(rng.below(5))))
+            elif r < 72:
+                ops.append("rm:" + hx(nm))
+            elif r < 76:
+                ops.append("clear")
+            elif r < 84:
+                ops.append("arg:" + hx(bytes(rng.below(255) + 1 for _ in range(rng.below(12)))))
+            elif r < 90:
+                ops.append("cwd:" + hx(CWDS[rng.below(2)]))
+            else:
+                ops.append("clone" if rng.below(2) else "clonekeep")
+        specs.append(" ".join([CMDS[rng.below(2)]] + ops + ["term:" + ("popen", "join", "capture")[rng.below(3)]]))
+    return specs
+
+
+def extra_c06(ctx):
+    """run by the C06 check: the same property, requested through `Exec` instead of a hand-made PopenConfig"""
+    specs = gen_env(ctx)
+    cases, proc = run_harness(ctx, specs)
+    done = [c for c in cases if c.get("complete")]
+    if len(done) != len(specs):
+        ctx.broken_correspondence({"what": f"builder harness ran {len(done)} of {len(specs)} cases (rc={proc.returncode})",
+                                   "stderr": proc.stderr.decode(errors='replace')[-800:]})
+    for c in done:
+        base = []
+        for kv in (c["base"].split(",") if c["base"] else []):
+            a, b = kv.split(":")
+            base.append((unhx(a), unhx(b)))
+        def viol(msg, sig=None, c=c):
+            if len(ctx.violations) < 3:
+                ctx.violation({"engine": "builder", "spec": c["spec"], "what": msg, "result": " ".join(c["res"]),
+                               "inherited_environment": c["base"], "log": c["log"][:40],
+                               "replay_cmd": "./check C06 (builder part)"}, sig)
+        oracle(c, base, viol)
+    ctx.cov["builder_cases"] = len(done)
+
+
 # ------------------------------------------------------------------------------------------ oracle
 def set_once(cur, new):
     if cur == "N":
